@@ -79,7 +79,7 @@ def run_stats_values(run, prop, cases, binp, codes, what, tag=""):
 def main(tier, seed, replay=None):
     run = Run("C13", tier, seed, "proof")
     rng = random.Random(seed)
-    proof_obligations(run, "C13")
+    proof_obligations(run, "C13", extra_pins=("E2E",))
     binp = build_harness("dev")
     cases = []
     reps = 3 if tier == "quick" else 40
